@@ -128,7 +128,12 @@ func Eval(r *Resolved, cfg Config) (string, error) {
 			f.flush()
 		case KStore:
 			f.flush()
-			stash[l.Name] = "(?:" + f.out.String() + ")"
+			// storing nothing stores nothing: loading it later contributes no (empty) unit
+			if f.out.Len() == 0 {
+				stash[l.Name] = ""
+			} else {
+				stash[l.Name] = "(?:" + f.out.String() + ")"
+			}
 			f.out.Reset()
 		case KLoad:
 			f.flush()
